@@ -69,3 +69,67 @@ def maximal_cliques(nodes, eset):
             if is_clique(c, eset) and not any(v not in c and is_clique(c + (v,), eset) for v in ns):
                 res.append(list(c))
     return res
+
+
+def gen_soup(rng):
+    """many pairwise disjoint small cliques on consecutive labels plus a few small cliques overlapping one or two of them:
+    lots of score-0 cliques and only a handful of overlapping ones (large graphs: oracle only, the brute-force model is skipped)"""
+    edges = set()
+    label = 1
+    groups = []
+    for _ in range(rng.randint(6, 12)):
+        k = rng.choice([2, 3, 4, 4, 4, 5])
+        vs = list(range(label, label + k))
+        label += k
+        groups.append(vs)
+        for a, b in itertools.combinations(vs, 2):
+            edges.add((a, b))
+    for _ in range(rng.randint(1, 4)):
+        g = rng.choice(groups[-3:] if rng.random() < 0.7 else groups)
+        if len(g) < 2:
+            continue
+        a, b = rng.sample(g, 2)
+        extra = label
+        label += 1
+        for x in (a, b):
+            edges.add((min(x, extra), max(x, extra)))
+    es = [list(e) if rng.random() < 0.5 else [e[1], e[0]] for e in edges]
+    rng.shuffle(es)
+    return es, "soup"
+
+
+def maximal_cliques_bk(nodes, eset):
+    adj = {v: set() for v in nodes}
+    for e in eset:
+        a, b = tuple(e)
+        adj[a].add(b)
+        adj[b].add(a)
+    out = []
+
+    def bk(R, P, X):
+        if not P and not X:
+            out.append(sorted(R))
+            return
+        for v in list(P):
+            bk(R | {v}, P & adj[v], X & adj[v])
+            P = P - {v}
+            X = X | {v}
+    bk(set(), set(nodes), set())
+    return out
+
+
+def all_cliques(nodes, eset, min_size=2):
+    """every clique with at least min_size vertices (as sorted tuples), by extension"""
+    adj = {v: set() for v in nodes}
+    for e in eset:
+        a, b = tuple(e)
+        adj[a].add(b)
+        adj[b].add(a)
+    ns = sorted(nodes)
+
+    def ext(c, cand):
+        if len(c) >= min_size:
+            yield tuple(c)
+        for i, v in enumerate(cand):
+            yield from ext(c + [v], [w for w in cand[i + 1:] if w in adj[v]])
+    yield from ext([], ns)
